@@ -267,8 +267,21 @@ func genPbf(repo string) *genFile {
 				})
 			}
 		}
+		// every call of the two consumers of optional iterators anywhere in the function, guarded or not
+		all := 0
+		if fd := need("dataDecoder", fn); fd != nil {
+			ast.Inspect(fd.Body, func(n ast.Node) bool {
+				if c, ok := n.(*ast.CallExpr); ok {
+					if f := exprText(c.Fun); f == "scanTags" || f == "extractMembers" {
+						all++
+					}
+				}
+				return true
+			})
+		}
 		g.pf("def %sCases : List String := %s\n", fn, leanStrList(cases))
 		g.pf("def %sGuardedCalls : List String := %s\n", fn, leanStrList(calls))
+		g.pf("def %sConsumerCallCount : Nat := %d\n", fn, all)
 	}
 
 	// all statements of a function, flattened in source order (simple statements only; compound ones as headers)
@@ -283,6 +296,19 @@ func genPbf(repo string) *genFile {
 		return out
 	}
 	g.pf("\ndef scanPrimitiveGroupBody : List String := %s\n", leanStrList(flatBody("dataDecoder", "scanPrimitiveGroup")))
+	// the accumulators the element loops start from (the first element of a group is decoded into these)
+	var initial []string
+	for _, l := range flatBody("dataDecoder", "scanPrimitiveGroup") {
+		if strings.HasPrefix(l, "way := ") || strings.HasPrefix(l, "relation := ") {
+			initial = append(initial, l)
+		}
+	}
+	for _, l := range flatBody("dataDecoder", "extractDenseNodes") {
+		if strings.HasPrefix(l, "n := ") {
+			initial = append(initial, l)
+		}
+	}
+	g.pf("def initialAccumulators : List String := %s\n", leanStrList(initial))
 	// the accept / reject tail of extractDenseNodes (the last if statement of the loop)
 	var denseTail []string
 	if fd := need("dataDecoder", "extractDenseNodes"); fd != nil {
